@@ -267,17 +267,17 @@ func verifServe(reqIdx, size int) {
 	}
 }
 
-//verif:opts nopanic cover=malformed,invalid,notfound,ok
+//verif:opts nopanic nodeadlock threads=16 cover=malformed,invalid,notfound,ok
 func VerifH_C09_NamespaceData() { verifServe(0, shwap.NamespaceDataIDSize) }
 
-//verif:opts nopanic cover=malformed,invalid,notfound,ok
+//verif:opts nopanic nodeadlock threads=16 cover=malformed,invalid,notfound,ok
 func VerifH_C09_Eds() { verifServe(1, shwap.EdsIDSize) }
 
-//verif:opts nopanic cover=malformed,invalid,notfound,ok,refused
+//verif:opts nopanic nodeadlock threads=16 cover=malformed,invalid,notfound,ok,refused
 func VerifH_C09_Sample() { verifServe(2, shwap.SampleIDSize) }
 
-//verif:opts nopanic cover=malformed,invalid,notfound,ok,refused
+//verif:opts nopanic nodeadlock threads=16 cover=malformed,invalid,notfound,ok,refused
 func VerifH_C09_Row() { verifServe(3, shwap.RowIDSize) }
 
-//verif:opts nopanic cover=malformed,invalid,notfound,ok,refused
+//verif:opts nopanic nodeadlock threads=16 cover=malformed,invalid,notfound,ok,refused
 func VerifH_C09_Range() { verifServe(4, shwap.RangeNamespaceDataIDSize) }
